@@ -419,6 +419,37 @@ func genC05(rng *rand.Rand, tier string) (cases []string) {
 			cases = append(cases, arpaCase("C05.prefix", s), arpaCase("C05.extract", s))
 		}
 	}
+	// a (nearly) full-length run of clean labels with one or two foreign labels in front: the
+	// longest label-aligned suffix stops at the foreign label, whatever its last bytes look like
+	// (fast paths that slice a fixed number of trailing bytes mis-align exactly here)
+	foreign := []string{"srv-a", "1a", "10", "_ptr0", "a1", "ff", "x", "g", "abc", "f0", "0a", "255", "x255", "1.1a", "a.10", "00"}
+	for _, k := range []int{1, 15, 28, 29, 30, 31, 32} {
+		nib := make([]string, k)
+		for i := range nib {
+			nib[i] = string("0123456789abcdef"[rng.IntN(16)])
+		}
+		for _, fl := range foreign {
+			for _, dot := range []string{"", "."} {
+				s := fl + "." + strings.Join(nib, ".") + ".ip6.arpa" + dot
+				if rng.IntN(4) == 0 {
+					s = mixCase(s)
+				}
+				cases = append(cases, arpaCase("C05.extract", s), arpaCase("C05.prefix", s))
+			}
+		}
+	}
+	for _, k := range []int{1, 2, 3, 4} {
+		oct := make([]string, k)
+		for i := range oct {
+			oct[i] = fmt.Sprint(pick(rng, 0, 1, 9, 10, 99, 100, 199, 200, 255, rng.IntN(256)))
+		}
+		for _, fl := range foreign {
+			for _, dot := range []string{"", "."} {
+				s := fl + "." + strings.Join(oct, ".") + ".in-addr.arpa" + dot
+				cases = append(cases, arpaCase("C05.extract", s), arpaCase("C05.prefix", s))
+			}
+		}
+	}
 	for i := 0; i < n; i++ {
 		s := genArpaName(rng)
 		switch rng.IntN(12) {
